@@ -396,7 +396,8 @@ theorem client_filter_arrives :
 
 /-- without valid credentials the add endpoint asks nothing of the cluster -/
 theorem add_auth_gate (r : AddReq) (h : addAuthorized r = false) : (addHandle r).ops = [] := by
-  unfold addHandle
+  show (addHandle0 r).ops = []
+  unfold addHandle0
   have : (r.creds && r.auth != .right) = true := by
     unfold addAuthorized at h
     cases hc : r.creds <;> cases ha : r.auth <;> simp_all
@@ -407,7 +408,8 @@ theorem add_auth_gate (r : AddReq) (h : addAuthorized r = false) : (addHandle r)
 theorem add_parse_refused (r : AddReq) (ha : addAuthorized r = true)
     (h : r.mp = .none ∨ hasGarbled r.query = true ∨ addParams r.query r.md = none) :
     (addHandle r).status = 400 ∧ (addHandle r).body = .docs 1 ∧ (addHandle r).ops = [] := by
-  unfold addHandle
+  show (addHandle0 r).status = 400 ∧ (addHandle0 r).body = .docs 1 ∧ (addHandle0 r).ops = []
+  unfold addHandle0
   have hna : (r.creds && r.auth != .right) = false := by
     unfold addAuthorized at ha
     cases hc : r.creds <;> cases hau : r.auth <;> simp_all
@@ -429,7 +431,10 @@ theorem add_faithful (r : AddReq) (ha : addAuthorized r = true) (hm : r.mp = .ok
   obtain ⟨o, ho, hpo⟩ := addParams_opts hp
   have how : o = w := by rw [fromQuery_of_carried hw] at ho; simpa using ho.symm
   subst how
-  unfold addHandle
+  have hops : (addHandle r).ops = (addHandle0 r).ops := rfl
+  unfold addFaithful
+  rw [hops]
+  unfold addHandle0
   have hna : (r.creds && r.auth != .right) = false := by
     unfold addAuthorized at ha
     cases hc : r.creds <;> cases hau : r.auth <;> simp_all
@@ -441,16 +446,73 @@ theorem add_faithful (r : AddReq) (ha : addAuthorized r = true) (hm : r.mp = .ok
     version it is added as CIDv1 -/
 def addReq0 : AddReq := { creds := false, auth := .none, mp := .ok, query := [], md := [], rpc := .ok }
 theorem add_K24_witness :
-    addHandle { addReq0 with mp := .junk } = { status := 200, body := .docs 0, trailer := true, root := none, ops := [] } ∧
+    addHandle0 { addReq0 with mp := .junk } = { status := 200, body := .docs 0, trailer := true, root := none, ops := [] } ∧
     addHolds { addReq0 with mp := .junk } (addHandle { addReq0 with mp := .junk }) = false := by decide
 theorem add_other_hash :
-    addHandle { addReq0 with query := [("hash", .valid (.str "sha3-512")), ("cid-version", .valid (.int 0))] } =
+    addHandle0 { addReq0 with query := [("hash", .valid (.str "sha3-512")), ("cid-version", .valid (.int 0))] } =
       { status := 400, body := .docs 1, trailer := false, root := none, ops := [] } ∧
     addHolds { addReq0 with query := [("hash", .valid (.str "sha3-512")), ("cid-version", .valid (.int 0))] }
       (addHandle { addReq0 with query := [("hash", .valid (.str "sha3-512")), ("cid-version", .valid (.int 0))] }) = true ∧
     (addHandle { addReq0 with query := [("hash", .valid (.str "sha3-512"))] }).root = some ⟨1, "raw", "sha3-512"⟩ ∧
     addHolds { addReq0 with query := [("hash", .valid (.str "sha3-512"))] }
       (addHandle { addReq0 with query := [("hash", .valid (.str "sha3-512"))] }) = true := by decide
+
+/-! ### the add options, field by field (`AddParamsFromQuery` → the adder) -/
+
+/-- **options_exact (the `AddParams`).** Whatever `AddParamsFromQuery` accepts, the `AddParams` it builds carry every
+    add option of the query exactly: a value given by name is never replaced, an option not given has the default
+    (the CID version following the hash function, the leaf form following the version). For every query. -/
+theorem add_seen_exact (q : List (String × QV)) (md : List (Nat × Nat)) (p : AddParams)
+    (h : addParams q md = some p) : seenExact q p.seen = true :=
+  seenExact_of_addParams h
+
+/-- in particular an explicit `raw-leaves` always wins - whatever hash function and version come with it -/
+theorem add_explicit_raw_leaves_wins (q : List (String × QV)) (md : List (Nat × Nat)) (p : AddParams) (b : Bool)
+    (h : addParams q md = some p) (hb : getq q "raw-leaves" = .valid (.bool b)) : p.rawLeaves = b := by
+  have := seenExact_of_addParams h
+  simp only [seenExact, Bool.and_eq_true] at this
+  have h12 := this.1.1.2
+  simpa [boolCarried, hb, AddParams.seen] using h12
+
+/-- … and so does an explicit `cid-version` -/
+theorem add_explicit_cid_version_wins (q : List (String × QV)) (md : List (Nat × Nat)) (p : AddParams) (i : Int)
+    (h : addParams q md = some p) (hb : getq q "cid-version" = .valid (.int i)) : p.cidv = i := by
+  have := seenExact_of_addParams h
+  simp only [seenExact, Bool.and_eq_true] at this
+  have h11 := this.1.1.1.2
+  simpa [cidvCarried, hb, AddParams.seen] using h11
+
+/-- the model's answer to ANY add request satisfies the new clause's `AddParams` half whenever the query is accepted,
+    and its leaf form is the one asked for by name -/
+theorem add_options_exact_model (r : AddReq) (p : AddParams) (hg : hasGarbled r.query = false)
+    (hp : addParams r.query r.md = some p) : addOptionsExact r (addHandle r) = true := by
+  have hs : (addHandle r).seen = some p.seen := by
+    show seenOf r.query r.md = some p.seen
+    simp [seenOf, hg, hp]
+  have hl : leafExact r.query (addHandle r).leaf = true := by
+    show leafExact r.query (addHandle0 r).leaf = true
+    exact leafExact_addHandle0 r p hg hp
+  simp [addOptionsExact, hs, hl, seenExact_of_addParams hp]
+
+example : addParams [("hash", .valid (.str "sha3-512")), ("raw-leaves", .valid (.bool false))] [] ≠ none := by decide
+
+/-- **the refuted alternative** ("parse the CID-builder options together at the end"): reading `raw-leaves` before the
+    hash function moves the version to 1, and letting that move set `RawLeaves`, overrides the request's own
+    `raw-leaves=false` - the clause fails on `?hash=sha3-512&raw-leaves=false` (no `cid-version`) -/
+def qLate : List (String × QV) := [("hash", .valid (.str "sha3-512")), ("raw-leaves", .valid (.bool false))]
+theorem late_upgrade_overrides_explicit :
+    (addParamsLate qLate []).map (·.rawLeaves) = some true ∧
+    (addParamsLate qLate []).map (fun p => seenExact qLate p.seen) = some false ∧
+    (addParams qLate []).map (·.rawLeaves) = some false ∧
+    (addParams qLate []).map (·.cidv) = some 1 ∧
+    (addHandle { addReq0 with query := qLate }).root = some ⟨1, "pb", "sha3-512"⟩ ∧
+    addHolds { addReq0 with query := qLate } (addHandle { addReq0 with query := qLate }) = true := by decide
+
+/-- the two orders differ ONLY there: with a `cid-version`, a sha2-256 hash or no explicit `raw-leaves=false` they agree -/
+theorem late_agrees_elsewhere (q : List (String × QV)) (md : List (Nat × Nat)) (p : AddParams)
+    (h : addParams q md = some p) (hr : p.rawLeaves = true ∨ otherHash q = false ∨ getq q "cid-version" ≠ .empty) :
+    (addParamsLate q md).map (·.seen) = some p.seen :=
+  late_agrees h hr
 
 /-! ### the full statement (server side) now holds of the model -/
 
